@@ -44,6 +44,15 @@ func c12Gen(seed uint64, run int, tier string) *Case {
 		c.Cfg["nfiles"] = int64(r.Pick(0, 1, 2, 5, 9, 30))
 		return c
 	}
+	if run%20 == 15 {
+		// a file server that answers Tstat from one long-lived Dir per file (the library's Fsrv does), and two
+		// connections that negotiated different dialects: each gets its stat in its own
+		c.Stratum = "kept-dir-two-dialects"
+		c.Cfg["keptdir"], c.Cfg["sharedir"] = 1, 1
+		c.Cfg["first"] = int64(r.Intn(2))
+		c.Cfg["rounds"] = int64(r.Range(2, 5))
+		return c
+	}
 	switch run % 4 {
 	case 0, 1: // negotiation grid + battery / bad frames
 		sm := c12SrvMsizes[k%len(c12SrvMsizes)]
@@ -191,7 +200,62 @@ func c12UfsRead(x *Ctx) {
 	}
 }
 
+func c12KeptDir(x *Ctx) {
+	c := x.C
+	fs := NewScriptFS(x)
+	fs.PlanFor = func(inv *Inv) *Plan { return &Plan{NWqid: -1, NData: -1, QType: 0x80} }
+	sys := NewSrvSys(x, fs, fs, 8192, true, 2, 0)
+	a := sys.AddConn(0, int(c.cfg("seg")))
+	b := sys.AddConn(0, int(c.cfg("seg")))
+	done := false
+	rt.Go(rt.SiteSpawn, func() {
+		rt.SetName("client")
+		conns := []*SConn{a, b}
+		if c.cfg("first") != 0 {
+			conns = []*SConn{b, a}
+		}
+		for i, sc := range conns {
+			ver := []string{"9P2000.u", "9P2000"}[i]
+			if r := sc.Peer.Call(&Msg{Type: Tversion, Tag: NOTAG, Msize: 8192, Version: ver}); r == nil || r.M == nil || r.M.Type != Rversion || r.M.Version != ver {
+				x.Violate("m1-dialect", "Tversion(%q) answered %v", ver, r)
+				return
+			}
+			if r := sc.Peer.Call(&Msg{Type: Tattach, Tag: 1, Fid: 0, Afid: NOFID, Uname: "u1", Nuname: 1}); r == nil || r.M == nil || r.M.Type != Rattach {
+				x.Violate("setup", "Tattach failed")
+				return
+			}
+		}
+		for round := 0; round < int(c.cfg("rounds")); round++ {
+			for i, sc := range conns {
+				r := sc.Peer.Call(&Msg{Type: Tstat, Tag: uint16(10 + round), Fid: 0})
+				if r == nil || r.M == nil {
+					x.Violate("m0-stalled", "Tstat on the connection that negotiated %s got no (decodable) reply", []string{"9P2000.u", "9P2000"}[i])
+					return
+				}
+				if r.M.Type != Rstat || r.M.Stat.Name != "kept-by-the-file-server" || r.M.Stat.Muid != "muid" || (sc.Peer.Dotu && r.M.Stat.Nmuid != 3) {
+					x.Violate("m3-stat", "Tstat on the connection that negotiated %s answered %s", []string{"9P2000.u", "9P2000"}[i], r.M)
+				}
+				if _, err := Decode(r.Raw, !sc.Peer.Dotu); err == nil {
+					x.Violate("m3-dialect", "an Rstat sent after negotiating dotu=%v also parses in the other dialect", sc.Peer.Dotu)
+				}
+			}
+		}
+		x.Probe("kept-dir-stat-in-two-dialects")
+		done = true
+	})
+	if !x.Run() {
+		return
+	}
+	if !done && len(x.Res.Viol) == 0 {
+		x.Violate("m0-stalled", "the session did not finish")
+	}
+}
+
 func c12Exec(x *Ctx) {
+	if x.C.cfg("keptdir") != 0 {
+		c12KeptDir(x)
+		return
+	}
 	if x.C.cfg("ufsread") != 0 {
 		c12UfsRead(x)
 		return
